@@ -373,12 +373,10 @@ impl CelValue {
     }
 
     pub fn neq(self, rhs: CelValue) -> CelValue {
-        self.error_prop_or(rhs, |lhs, rhs| {
-            if let CelValue::Bool(res) = CelValueDyn::eq(&lhs, &rhs) {
-                return CelValue::from_bool(!res);
-            }
-
-            unreachable!();
+        self.error_prop_or(rhs, |lhs, rhs| match CelValueDyn::eq(&lhs, &rhs) {
+            CelValue::Bool(res) => CelValue::from_bool(!res),
+            // comparing containers that hold an error value yields that error
+            other => other,
         })
     }
 
